@@ -308,6 +308,18 @@ def standin_joint_tables(tier, seed):
              ("observed event before the last visit", table(71.0), False),
              ("observed event before the first visit", table(50.0), False),
              ("two different event times for one individual", table(76.0, inconsistent_time=True), False)]
+
+    def with_cells(tab, cells):
+        t = tab.copy()
+        for (row, col), val in cells.items():
+            t.loc[row, col] = val
+        return t
+    nan, inf = float("nan"), float("inf")
+    cases += [("event age missing on one row of an individual", with_cells(table(76.0), {(1, "EVENT_TIME"): nan}), False),
+              ("event age missing on every row of an individual", with_cells(table(76.0), {(0, "EVENT_TIME"): nan, (1, "EVENT_TIME"): nan}), False),
+              ("event age zero", table(76.0, ev_a=0.0), False),
+              ("event age negative", table(76.0, ev_a=-3.0), False),
+              ("event age infinite", table(76.0, ev_a=inf), False)]
     orders = list(itertools.permutations(range(5))) if tier == "thorough" else list(itertools.permutations(range(5)))[::5]
     for label, tab, valid in cases:
         ref = None
